@@ -14,7 +14,7 @@ from collections import Counter
 
 from . import common, gen, iotrace, sched
 
-READ_KINDS = ['single', 'bulk', 'meta', 'has', 'chunks', 'seek']
+READ_KINDS = ['single', 'bulk', 'meta', 'has', 'chunks', 'seek', 'bulkseek']
 WRITE_KINDS = ['write-new', 'write-dup']
 PROBES = READ_KINDS + WRITE_KINDS
 PACKER_VARIANTS = [(mode, clpp) for mode in ('no', 'yes', 'auto') for clpp in (False, True)]
@@ -118,6 +118,30 @@ class Arena:
                         rest = stream.read()
                     if head + rest[10:] != data or rest[:10] != data[20:30]:
                         self.bad('concurrent:wrong-bytes:seek', f'{who}: seeking read of compressed {k[:10]} differs')
+            elif kind == 'bulkseek':
+                # one bulk call over several objects, then a seeking read on every yielded stream (an object packed+compressed
+                # meanwhile is served through its re-loosened copy)
+                seen = 0
+                with cont.get_objects_stream_and_meta(keys, skip_if_missing=False) as triplets:
+                    for k, stream, meta in triplets:
+                        seen += 1
+                        data = acked[k]
+                        if stream is None:
+                            self.bad('concurrent:reported-missing', f'{who}: bulk stream read reports acknowledged {k[:10]} as missing')
+                            continue
+                        head = stream.read(5)
+                        if len(data) >= 5:
+                            stream.seek(-3, 1)
+                            mid = stream.read(10)
+                            stream.seek(-min(7, len(data)), 2)
+                            tail = stream.read()
+                            ok = head == data[:5] and mid == data[2:12] and tail == data[-min(7, len(data)):]
+                        else:
+                            ok = head == data
+                        if not ok or meta.size != len(data):
+                            self.bad('concurrent:wrong-bytes:bulkseek', f'{who}: seeking read inside a bulk read returned other bytes (or a wrong size) for {k[:10]}')
+                if seen != len(keys):
+                    self.bad('concurrent:bulk-read', f'{who}: bulk stream read yielded {seen} of {len(keys)} keys')
             elif kind == 'write-new':
                 self.nnew += 1
                 d = gen.content(['text', 400 + self.nnew, 777000 + self.nnew * 13 + len(self.acked)])
